@@ -267,6 +267,15 @@ class LineProc:
                 break
             # died while answering request start+len(out)
             res.extend(out)
+            if rc == "timeout":
+                # a slow batch (machine under load) is not a hang: ask for that one request alone before concluding
+                k = start + len(out)
+                pre1 = [lines[i] for i in sticky if i < k][-1:]
+                out1, rc1, err1 = self._run(pre1 + [lines[k]], timeout)
+                if rc1 != "timeout" and len(out1) > len(pre1):
+                    res.append(out1[len(pre1)])
+                    start = k + 1
+                    continue
             res.append("DIED %s %s" % (rc, hx(err[-400:])))
             self.restarts += 1
             start += len(out) + 1
